@@ -153,7 +153,72 @@ func cmdC14(seed uint64, tier, outdir string) {
 			}
 		}
 	}
-	_ = lc.DefaultConfidenceThreshold
+	// the License classifier of the root package on top: concurrent NearestMatch / MultipleMatch on one License built
+	// from an archive, with ordinary texts, texts that normalise to nothing (title and notice lines only) and texts
+	// without common license words; every result is compared with the sequential one and must be the caller's own
+	{
+		files := licenseFiles()
+		var pick []licFile
+		var paths []string
+		for _, f := range files {
+			if len(f.data) < 6000 && len(pick) < 10 {
+				pick = append(pick, f)
+				paths = append(paths, f.name)
+			}
+		}
+		ab, err := archiveOf(pick, paths)
+		if err != nil {
+			panic(err)
+		}
+		texts := []string{"The MIT License\nCopyright 2015 Foo Bar\nAll rights reserved.\n", "Copyright (c) 2020 X\n", "zzqx wobble frobnicate\n", "",
+			string(pick[0].data), "some code\n" + string(pick[1].data), strings.ToUpper(string(pick[2].data)), "The BSD License\nCopyright 1999 Y Z\n"}
+		show := func(m *sc.Match) string {
+			if m == nil {
+				return "<nil>"
+			}
+			return fmt.Sprintf("%s:%v:%d+%d", m.Name, m.Confidence, m.Offset, m.Extent)
+		}
+		for round := 0; round < rounds; round++ {
+			l, err := lc.New(lc.DefaultConfidenceThreshold, lc.ArchiveBytes(ab))
+			if err != nil {
+				panic(err)
+			}
+			ref, _ := lc.New(lc.DefaultConfidenceThreshold, lc.ArchiveBytes(ab))
+			want := make([]string, len(texts))
+			for i, t := range texts {
+				want[i] = show(ref.NearestMatch(t))
+			}
+			ngo := []int{4, 16, 32}[round%3]
+			bad := make([]string, ngo)
+			var wg sync.WaitGroup
+			for g := 0; g < ngo; g++ {
+				wg.Add(1)
+				go func(g int) {
+					defer wg.Done()
+					for k := 0; k < 3*len(texts); k++ {
+						i := (k + g) % len(texts)
+						m := l.NearestMatch(texts[i])
+						if got := show(m); got != want[i] && bad[g] == "" {
+							bad[g] = fmt.Sprintf("License.NearestMatch(text %d): %s vs sequential %s", i, got, want[i])
+						}
+						if m != nil {
+							m.Name = fmt.Sprintf("scribbled-by-%d", g) // the result belongs to the caller
+						}
+						l.MultipleMatch(texts[i], true)
+					}
+				}(g)
+			}
+			wg.Wait()
+			for g := 0; g < ngo; g++ {
+				cw.printf("License round=%d goroutines=%d g=%d\n", round, ngo, g)
+				if bad[g] == "" {
+					vw.printf("OK 1\n")
+				} else {
+					vw.printf("VIOL - %d goroutines: %s\n", ngo, bad[g])
+				}
+			}
+		}
+	}
 	vw.close()
 	cw.close()
 	fmt.Println("c14 done")
